@@ -504,7 +504,7 @@ func TestC05Payload(t *testing.T) {
 	rapid.Check(t, prop(r, func(t *rapid.T) {
 		ss := gen.CoherentSchema(t, gen.SchemaOpts{MinTypes: 1, MaxTypes: 2, MaxAttrs: 5, MaxRelEdges: 4, AllKindsChance: 6})
 		ts := &ss.Types[rapid.IntRange(0, len(ss.Types)-1).Draw(t, "type")]
-		pc := gen.ResourcePayload(t, ts, gen.PayloadOpts{IllPerTen: 5, IllRelPerTen: 3, UnknownPerTen: 1, AllFieldsOften: true})
+		pc := gen.ResourcePayload(t, ts, gen.PayloadOpts{IllPerTen: 5, IllRelPerTen: 3, UnknownPerTen: 1, AllFieldsOften: true, OddIdentPerTen: 1})
 
 		inputs := []string{pc.Text, `{"data":` + pc.Text + `}`, `[` + pc.Text + `]`, `{"data":null,"included":[` + pc.Text + `]}`}
 		labels := []string{}
